@@ -93,7 +93,9 @@ def run_case(c):
             world.build(sb.root, [x for x in W.spec()['nodes'] if x[1] == E or x[1].startswith(E + '/')])
             # re-created original has to be byte-identical to orig for the oracle: rebuild resets mtimes
             orig = sb.snapshot()
-        r = sb.run(['trash-put'] + putopt + tdopt + ['--', n], cwd=B, now=T_US, env=putenv)
+        # directory-like entries are named with two trailing slashes in a third of the points (the entry trashed is still the link / the directory itself)
+        spelled = n + '//' if (c['kind'] in ('tree', 'ldir') and c['sort'] == 'none') else n
+        r = sb.run(['trash-put'] + putopt + tdopt + ['--', spelled], cwd=B, now=T_US, env=putenv)
         if r.exit != 0:
             return {'verdict': 'dontcare', 'klass': 'put-failed', 'detail': r.err[-300:]}
         if h == 'unrelated-after':
